@@ -29,6 +29,24 @@ def near_miss(rng, t, in_meta=False):
     return [tag, a, [k if isinstance(k, str) else near_miss(rng, k, in_meta or tag == 'meta') for k in kids]]
 
 
+def swap_two(rng, t):
+    """two identifiable elements exchange their eIds (each holds the id the other should get)"""
+    paths = [p for n, m, p in eidlib.iter_elems(t) if not m and n[0] != 'meta' and n[0] not in eidlib.EXEMPT and n[0] not in eidlib.PASS and n[1].get('eId')]
+    if len(paths) < 2:
+        return t
+    a, b = rng.sample(paths, 2)
+    t = json.loads(json.dumps(t))
+
+    def at(path):
+        n = t
+        for i in path:
+            n = n[2][i]
+        return n
+    na, nb = at(a), at(b)
+    na[1]['eId'], nb[1]['eId'] = nb[1]['eId'], na[1]['eId']
+    return t
+
+
 def old_new_pairs(before, after):
     """(old eId, new eId) for identifiable elements outside meta, in document order"""
     out = []
@@ -58,7 +76,7 @@ def rewrite_violation(rng, tree, prefix):
     r3 = eidlib.real_rewrite(scramble_eids(rng, tree), prefix)
     if r3.get('tree') != out:
         return 'result depends on the eIds that were there before (scrambled eIds give a different result)'
-    nm = near_miss(rng, out)
+    nm = swap_two(rng, near_miss(rng, out) if rng.random() < 0.6 else out)
     r5 = eidlib.real_rewrite(nm, prefix)
     if r5.get('tree') != out:
         return 'result depends on the eIds that were there before (the correct ids padded with white space / slightly altered are not all restored)'
